@@ -125,6 +125,7 @@ WorkOps ==
   \cup {Op("AddToolchainStmt", <<"go1.21.0">>), Op("DropToolchainStmt", <<>>)}
   \cup {Op("AddGodebug", <<k, v>>) : k \in {"k1", "k2"}, v \in {"v1", "v3"}} \cup {Op("DropGodebug", <<k>>) : k \in {"k1", "k2"}}
   \cup {Op("AddUse", <<p>>) : p \in {"./x", "./y", "./new", "./o'brien", "./my dir"}} \cup {Op("DropUse", <<p>>) : p \in {"./x", "./y"}}
+  \cup {Op("AddNewUse", <<p>>) : p \in {"./x", "./new"}}
   \cup {OpL("SetUse", l) : l \in {<<>>, <<"./x">>, <<"./y", "./x">>, <<"./new", "./x", "../z">>}}
   \cup {Op("AddReplace", <<p, ov, "example.com/new", "v1.2.0">>) : p \in {"example.com/a", "example.com/b"}, ov \in {"", "v1.0.0"}}
   \cup {Op("DropReplace", <<p, ov>>) : p \in {"example.com/a"}, ov \in {"", "v1.0.0"}}
